@@ -89,6 +89,16 @@ CHECKS = {
         note="Partial: the history theorem is conditional on the oracle equalities kernel(par, n) = kernel(serial, 1) and fft(t) = fft(1). Thread schedules inside numba and FFTW, numba code generation (incl. the on-disk cache serving one variant's machine code for both flags) and FFTW planner/wisdom effects are runtime behaviour the model cannot exhibit; they are EXERCISED, not proved: results are compared bit for bit within a process and against fresh one-thread processes (serial-first, parallel-first and cold numba caches, NUM_THREADS 1..8, manager resets, planted FFTW_MEASURE wisdom at 1e-12), single vs double at 1e-5 of the field maximum. IEEE rounding is not covered by any theorem. The check is stricter than the property in one place: a rounding-level (<= 1e-12) difference between thread settings refutes the oracle hypothesis and is reported as 'no longer checks' without a failing input. Hand-written model; theorems closed under the global context.",
         technique="Coq proof (induction over op lists with a state invariant; closed form of one solve by rewriting; inspection proof that rho is the only consumer of a_single) + exact model/implementation correspondence of state traces and state-reading calls evaluated by vm_compute + bit-level differential execution across histories, thread settings, processes, numba-cache and FFTW-wisdom regimes + fail-closed AST census of global-state accesses + model-independent history oracle with shrinking",
         design="6/C12",
+    ),    "C17": dict(
+        text="Machine-checked Coq theorems over the reals about Model/Geo.v (latlon_to_xy, xy_to_latlon and the configuration step), for ALL points and references: the two transforms are mutual inverses whenever cos(ref_lat) != 0 (every |ref_lat| < 90 deg); the reference maps to (0,0) and back; x is strictly increasing in longitude and independent of latitude, y strictly increasing in latitude and independent of longitude, east/north of the reference <=> x/y > 0; BLDFMConfig.__post_init__ sets every tower's (x,y) to latlon_to_xy(lat,lon,ref) and leaves a freshly parsed tower at (0,0) when a reference coordinate is missing. The accuracy clause is proved in full, analytically: for every |ref_lat| <= 60 deg, any longitude and every offset with |x|,|y| <= 5 km (no minimum range) the local distance is within 0.1 % of the great-circle (haversine) distance and the local bearing within 0.1 deg of the initial great-circle bearing (cross/dot criterion, shown equivalent to the angle bound). Model tied to the source on every run by four bridge lemmas against formulas re-extracted from config_parser.py and plotting/_geo.py (incl. the module constant _EARTH_RADIUS and the order of the returned tuples) and by interval-certified evaluation of the real model at the exact rational value of every float input (scalars and numpy arrays, each goal closed by Qed) plus bit-exact observation of the configuration step.",
+        note="Theorems are in exact real arithmetic on a sphere of the code's radius (stdlib real axioms only: sig_forall_dec, sig_not_dec, functional_extensionality_dep, classic); IEEE rounding is bounded only per evaluated case (1e-6 m / 1e-11 deg); math/numpy trigonometric functions are identified with Coq's; great-circle yardsticks are the haversine formula in atan2 form (proved to solve sin^2(sigma/2)=a) and the standard initial-bearing vector. Nothing is partial. The thorough tier additionally sweeps the property's own statement on the real code (round trips, origin, orientation, haversine/bearing: measured worst 2.6e-4 and 0.042 deg).",
+        technique="Coq proof (field/ring identities; Taylor bounds of sin from the standard library, Lipschitz bound of cos, AM-GM style homogeneous estimates - no numerical tactic in any theorem) + slice translator with bridge lemmas + interval-certified model/implementation correspondence (Coq `interval`, 80-bit, exact rational inputs) + bit-pattern observation of parse_config_dict/BLDFMConfig + haversine oracle on the real code",
+        design="6/C17",
+    ),    "C08": dict(
+        text="Machine-checked Coq theorems over the reals about Model/Wind.v (compute_wind_fields) for EVERY speed and direction: u^2+v^2 = U^2; 0/90/180/270 deg map exactly to (0,-U), (-U,0), (0,U), (U,0) (blowing toward south/west/north/east); -(u,v)/U = (sin wd, cos wd), the unit vector of compass bearing wd in an x-east/y-north frame; wd and wd+360 give the same wind; wd is the one and only compass bearing in [0,360) of the upwind direction. Tied to the source on every run by two bridge lemmas against the re-extracted formulas, by interval-certified evaluation of (u,v) on a 7.5/2.5-degree lattice incl. cardinals, scalars and arrays, and by bit-exact observation that run_bldfm_single passes exactly compute_wind_fields(step wind_speed, step wind_dir) to vertical_profiles and the tower's latlon_to_xy coordinates as meas_pt. The end-to-end clause (bearing tower -> footprint centre of mass = wind_dir within 5 deg on a resolved domain) is NOT a theorem: it is exercised through parse_config_dict + run_bldfm_single by an 8-direction smoke run in every check and by the oracle sweep (5-degree direction lattice x closures MOST/MOSTM/CONSTANT x stabilities x speeds x square/oblong grids x references; measured worst 3.1 deg) in the thorough tier and whenever an obligation breaks.",
+        note="Partial: the centroid-bearing clause concerns the discrete PDE solution on a finite periodic grid and has no algebraic form; it is tested, not proved. 'Resolved' is made precise in the evidence (tower at the centre, peak distance between 2 cells and 1/20 of the domain, all modes of the padded grid, halo 2x; default halo only for MOST/MOSTM - the CONSTANT closure's heavy tail makes the centroid depend on the periodic images with the default halo). Theorems in exact real arithmetic (stdlib real axioms only); numpy's deg2rad/sin/cos identified with Coq's; rounding bounded per evaluated case (1e-12*max(1,U)).",
+        technique="Coq proof (trigonometric identities, uniqueness of the angle in [0,2pi) from sin/cos) + slice translator (SSA expansion of the re-assigned parameter) with bridge lemmas + interval-certified correspondence + bit-pattern observation of the interface plumbing + end-to-end footprint-centroid oracle on the real code",
+        design="6/C08",
     ),}
 
 NOT_YET = "check not built yet in this round of work (planned in DESIGN.md section 6); no claim is made"
